@@ -154,8 +154,34 @@ def prop_execution(case, ctx):
 def learner_cases(draw, tier="quick"):
     spec = draw(pomdp_specs(max_states=3, max_actions=2, max_obs=2, absorbing_kinds=("n", "n", "n", "n", "abs"),
                             zero_obs=draw(st.booleans())))
+    iterations = draw(st.integers(1, 4))
+    if draw(st.integers(0, 1)) == 0:
+        # (own small POMDPs for this family: 2-3 states, 2-3 actions, mostly unobservable, no absorbing states)
+        spec = draw(pomdp_specs(min_states=2, max_states=3, max_actions=3, max_obs=draw(st.sampled_from([1, 1, 2])),
+                                absorbing_kinds=("n",), zero_obs=False, gammas=[0.5, 0.75, 0.9]))
+    if spec["m"] >= 2 and draw(st.integers(0, 2)) <= 1 and not any(spec["absorbing"]):
+        # two actions that coincide in one state (same successors, rewards and observations there) and differ elsewhere:
+        # exact ties between *different* actions at beliefs concentrated on that state
+        import copy
+        s0 = draw(st.integers(0, spec["n"] - 1))
+        rows = dict((a, outs) for a, outs in spec["trans"][s0])
+        acts = sorted(rows)
+        if len(acts) >= 2 and not spec["absorbing"][s0]:
+            rows[acts[1]] = copy.deepcopy(rows[acts[0]])
+            spec["trans"][s0] = [[a, rows[a]] for a in acts]
+            spec["obs"][acts[1]] = copy.deepcopy(spec["obs"][acts[0]])
+            spec["p0"] = [[s0, draw(st.sampled_from([1, 2, 3]))]] + ([[(s0 + 1) % spec["n"], 1]] if spec["n"] > 1 and draw(st.booleans()) else [])
+            # the last action brings every state back to s0 for sure (beliefs concentrated on s0 keep coming up)
+            for s_ in range(spec["n"]):
+                r_ = dict((a, outs) for a, outs in spec["trans"][s_])
+                if acts[-1] in r_ and acts[-1] not in acts[:2]:
+                    r_[acts[-1]] = [[s0, 1, draw(st.integers(-2, 2))]]
+                    spec["trans"][s_] = [[a, r_[a]] for a in sorted(r_)]
+            iterations = draw(st.integers(1, 8))
+            from vpm.gen.mdp import normalise_absorbing_successors
+            normalise_absorbing_successors(spec)      # (the initial support changed: keep absorbing states' successors inside)
     return {"pomdp": spec, "nodes": draw(st.integers(1, 3)), "seed": draw(st.sampled_from([0, 1, 7, 12345, 2 ** 30 - 1])),
-            "iterations": draw(st.integers(1, 4)), "ga_iterations": draw(st.integers(1, 30))}
+            "iterations": iterations, "ga_iterations": draw(st.integers(1, 30))}
 
 
 def check_controller(ctx, tag, policy, arr, pomdp, view, reported_value):
@@ -245,7 +271,7 @@ PROPS = [
          doc="executed vs defined probability of every action/observation history up to length 3"),
     Prop("rollout", lambda tier: rollout_cases(tier), prop_rollout, quick=1200, thorough=75000,
          doc="executing the controller (run_on): valid steps, episode ends on entering an absorbing state, agent-state updates"),
-    Prop("bpi", lambda tier: learner_cases(tier), prop_bpi, quick=60, thorough=3600,
+    Prop("bpi", lambda tier: learner_cases(tier), prop_bpi, quick=480, thorough=12000,
          doc="bounded policy iteration: valid controller, reported value, monotone across iterations (prefix runs)"),
     Prop("ga", lambda tier: learner_cases(tier), prop_ga, quick=150, thorough=9000,
          doc="gradient ascent: valid controller, reported value is the exact evaluation"),
